@@ -149,3 +149,26 @@ MANIFEST_TEXT["C05"] = {
     "technique": "property-based testing (rapid): metamorphic proof encodings + differential/model oracle",
 }
 NOT_APPLICABLE[:] = [e for e in NOT_APPLICABLE if e["property_id"] not in CHECKS]
+
+CHECKS["C06"] = {
+    "test": "TestC06",
+    "quick": {"shards": 8, "checks": 800},
+    "thorough": {"shards": 16, "checks": 4000},
+    "rule": "rapid-generated sequences of block / undo (depth 1 or a random depth up to the whole history) / redo-the-undone-block steps, new blocks after an "
+            "undo use leaves with different hashes (branch salt); run on Pollard, a full MapPollard and a partial MapPollard (generated TotalRows; partial "
+            "forests Verify(remember) a block's deletions first). Undo gets (numAdds, the block's proof, its deleted hashes, the previous roots) as fresh "
+            "copies. Oracles: (1) after every step each instance equals the reference model (roots, count, every live leaf's position, not-found for every "
+            "deleted or undone leaf, GetHash of every existing node, canonical proofs of 6 probe subsets, tracked-leaf count); (2) after each undo the "
+            "instance equals the snapshot taken right before the undone block (positions of every hash ever added, GetHash at every position <= maxPos, "
+            "byte-identical proofs); (3) at the end it equals a fresh replica that only saw the surviving blocks. Non-trivial: contains an undo of a block "
+            "that both deleted and added and emptied a tree / overwrote an empty root / changed TreeRows.",
+    "assumptions": COMMON_ASSUME + ["for a partial forest only what the property forces is compared: remembered leaves' positions and proofs, true hashes, required positions stored; leaves it was asked to remember later (Verify with remember is not undone by Undo) may stay tracked"],
+}
+MANIFEST_TEXT["C06"] = {
+    "level_text": "Exploration: stateful (model-based) generation of block/undo/redo sequences with three oracles (reference model, pre-block snapshot, fresh "
+                  "replica). Histories are unbounded; sampled with the block shapes and undo depths measured.",
+    "design_ref": "DESIGN.md section 6 C06",
+    "level_note": TRUST,
+    "technique": "stateful property-based testing (rapid): model-based + snapshot round-trip + replica differential",
+}
+NOT_APPLICABLE[:] = [e for e in NOT_APPLICABLE if e["property_id"] not in CHECKS]
